@@ -1,6 +1,9 @@
 package verifcontrols
 
-import "sort"
+import (
+	"math"
+	"sort"
+)
 
 // ---- searchmonotone: a binary search whose predicate is an equality test
 
@@ -87,4 +90,26 @@ func ctlNoHistoryBad(x int) int {
 		ctlLast.key, ctlLast.val, ctlLast.ok = x, x*x, true
 	}
 	return ctlLast.val
+}
+
+// ---- omittolerance: a DICT entry is left out when it is "near" the default
+
+type ctlDict map[int][]interface{}
+
+// must fire: values within 1e-5 of the default are replaced by the default
+func ctlOmitNearBad(x float64) ctlDict {
+	d := ctlDict{}
+	if math.Abs(x-0.001) > 1e-5 {
+		d[2] = []interface{}{x}
+	}
+	return d
+}
+
+// must stay silent: exact comparison
+func ctlOmitExactGood(x float64) ctlDict {
+	d := ctlDict{}
+	if x != 0.001 {
+		d[1] = []interface{}{x}
+	}
+	return d
 }
